@@ -26,7 +26,7 @@ import (
 
 func TestMain(m *testing.M) { stats.Main(m) }
 
-const ruleC05 = "rapid-generated end-to-end runs inside one testing/synctest bubble: a real http.Server{Handler: sse.Server{Provider: Joe{Replayer}}} and a real sse.Client over http.Transport, connected through net.Pipe wrapped in a cutting conn. Replayer in {Finite, Valid} x {automatic, manual IDs} large enough for everything published - or, for 40% of the finite ones, a ring of only 2..6 events that wraps, with a publish step skipped whenever it would evict the event the client has to resume from; 3..12 messages (multi-line data with CR/LF/CRLF, colons, leading spaces, field look-alikes; optional type, comments, Retry; 7% carry a further data line of 1000..20000 bytes; header-safe manual IDs); after 'connect, publish m0, wait' a script of 5..40 actions: publish next | arm a cut after n more response bytes (n drawn up to the size of what will be written, so cuts land in the status line, headers, chunk framing, inside and between events) | cut now | end the handler from the server side once the session has sent something | virtual sleep | wait for quiescence. Oracle: after the script, with no more cuts and a virtual sleep beyond the maximum backoff, the callback log equals exactly (ID, type, data) of m0, m1, ... in order; every reconnect carried Last-Event-Id == ID of the last event delivered before it; Joe did not panic; Connect returns the context's error on cancel - 25% of the clients use a context cancelled with a cause - without a further OnRetry, and the bubble ends with no goroutine left. Non-trivial: at least one abrupt cut strictly inside an event's bytes and at least one message published while no session was subscribed. Distinct: FNV-64 of the JSON of the case."
+const ruleC05 = "rapid-generated end-to-end runs inside one testing/synctest bubble: a real http.Server{Handler: sse.Server{Provider: Joe{Replayer}}} and a real sse.Client over http.Transport, connected through net.Pipe wrapped in a cutting conn. Replayer in {Finite, Valid} x {automatic, manual IDs} large enough for everything published - or, for 40% of the finite ones, a ring of only 2..6 events that wraps, with a publish step skipped whenever it would evict the event the client has to resume from; 3..12 messages (multi-line data with CR/LF/CRLF, colons, leading spaces, field look-alikes; optional type, comments, Retry; 7% carry a further data line of 1000..20000 bytes; header-safe manual IDs); 30% of the servers subscribe the client to one topic through OnSession and a third of the messages go to another one; 20% of the clients have an http.Client.Timeout of 20..400 virtual ms, i.e. cut their own connections with net/http's timeout error; after 'connect, publish m0, wait' a script of 5..40 actions: publish next | arm a cut after n more response bytes (n drawn up to the size of what will be written, so cuts land in the status line, headers, chunk framing, inside and between events) | cut now | end the handler from the server side once the session has sent something | virtual sleep | wait for quiescence. Oracle: after the script, with no more cuts and a virtual sleep beyond the maximum backoff, the callback log equals exactly (ID, type, data) of m0, m1, ... in order; every reconnect carried Last-Event-Id == ID of the last event delivered before it; Joe did not panic; Connect returns the context's error on cancel - 25% of the clients use a context cancelled with a cause - without a further OnRetry, and the bubble ends with no goroutine left. Non-trivial: at least one abrupt cut strictly inside an event's bytes and at least one message published while no session was subscribed. Distinct: FNV-64 of the JSON of the case."
 
 // ---- case ---------------------------------------------------------------------------------
 
@@ -35,7 +35,8 @@ type MsgSpec struct {
 	Type  string    `json:"type,omitempty"`
 	Cmt   string    `json:"cmt,omitempty"`
 	Retry int       `json:"retryms,omitempty"`
-	Long  int       `json:"long,omitempty"` // a further data line of this many bytes
+	Long  int       `json:"long,omitempty"`  // a further data line of this many bytes
+	Other bool      `json:"other,omitempty"` // Topics cases: published to a topic the client is not subscribed to (it must never see it)
 }
 
 type Step struct {
@@ -58,6 +59,11 @@ type Case struct {
 	SmallCap int `json:"smallcap,omitempty"`
 	// Cause: the client's request context is cancelled with a cause (WithCancelCause) at the end
 	Cause bool `json:"cause,omitempty"`
+	// Topics: the server's OnSession subscribes the client to topic "a"; messages go to "a" or (Other) to "b"
+	Topics bool `json:"topics,omitempty"`
+	// ClientTimeoutMs > 0: http.Client.Timeout - the client itself cuts every connection after that
+	// long (virtual time), with net/http's timeout error while the request context stays alive
+	ClientTimeoutMs int `json:"clienttimeoutms,omitempty"`
 }
 
 var dataPool = []string{"x", "hello", "a\nb", "a\r\nb", "a\rb", ": colon", " lead", "id: 9", "data: z", "retry: 1", "event: e", "", "\n", "trail\n", "é€", "a:b", "multi\n\nline"}
@@ -127,6 +133,15 @@ func gen(t *rapid.T) Case {
 	c.CapAdd = stats.Pick(t, 3, "capadd")
 	c.RemoteCloses = rapid.Bool().Draw(t, "remotecloses")
 	c.Cause = stats.Pct(t, "ctxcause") < 25
+	if stats.Pct(t, "topics") < 30 {
+		c.Topics = true
+		for i := 1; i < len(c.Msgs); i++ {
+			c.Msgs[i].Other = stats.Pct(t, "othertopic") < 35
+		}
+	}
+	if stats.Pct(t, "clienttimeout") < 20 {
+		c.ClientTimeoutMs = stats.From(t, []int{20, 100, 400}, "clienttimeoutms")
+	}
 	if !c.Valid && stats.Pct(t, "smallcap") < 40 {
 		c.SmallCap = 2 + stats.Pick(t, 5, "smallcapn")
 	}
@@ -276,6 +291,9 @@ func check(t *testing.T, c Case) (v *stats.Verdict) {
 		}
 		joe := &sse.Joe{Replayer: rep}
 		srv := &sse.Server{Provider: joe}
+		if c.Topics {
+			srv.OnSession = func(http.ResponseWriter, *http.Request) ([]string, bool) { return []string{"a"}, true }
+		}
 
 		var mu sync.Mutex
 		var serverCancel context.CancelFunc
@@ -332,7 +350,7 @@ func check(t *testing.T, c Case) (v *stats.Verdict) {
 				}
 				expectHdr = append(expectHdr, last)
 				return tr.RoundTrip(r)
-			})},
+			}), Timeout: time.Duration(c.ClientTimeoutMs) * time.Millisecond},
 			Backoff: sse.Backoff{InitialInterval: time.Millisecond, MaxInterval: 5 * time.Millisecond},
 			OnRetry: func(error, time.Duration) {
 				if cancelled.Load() {
@@ -347,6 +365,7 @@ func check(t *testing.T, c Case) (v *stats.Verdict) {
 		synctest.Wait()
 
 		var wants []want
+		var wantIdx []int // index (among everything published) of each message the client has to see
 		published := 0
 		pubWhileAway := false
 		pub := func() string {
@@ -384,10 +403,24 @@ func check(t *testing.T, c Case) (v *stats.Verdict) {
 				pubWhileAway = true
 			}
 			mu.Unlock()
-			if err := srv.Publish(m); err != nil {
+			var err error
+			switch {
+			case !c.Topics:
+				err = srv.Publish(m)
+			case ms.Other:
+				err = srv.Publish(m, "b")
+			default:
+				err = srv.Publish(m, "a")
+			}
+			if err != nil {
 				return fmt.Sprintf("Publish #%d failed: %v", i, err)
 			}
+			if c.Topics && ms.Other {
+				v.Class("published-to-another-topic")
+				return ""
+			}
 			wants = append(wants, want{id, ms.Type, strings.Join(mod.DataLines(), "\n")})
+			wantIdx = append(wantIdx, i)
 			return ""
 		}
 		fail := func(format string, a ...any) {
@@ -412,7 +445,8 @@ func check(t *testing.T, c Case) (v *stats.Verdict) {
 			case "pub":
 				if c.SmallCap > 0 {
 					synctest.Wait()
-					if published-len(got) > c.SmallCap-2 {
+					// the event the client resumes from (the last one it has seen) must stay in the ring
+					if len(got) == 0 || len(got) > len(wantIdx) || published-wantIdx[len(got)-1] > c.SmallCap-1 {
 						v.Class("publish-skipped:would-evict-the-resume-point")
 						continue
 					}
@@ -504,6 +538,12 @@ func check(t *testing.T, c Case) (v *stats.Verdict) {
 		}
 		panicMu.Unlock()
 
+		select {
+		case err := <-res:
+			fail("Connect returned %v although its context was alive and retries are unlimited\n got %q\n headers %q", err, got, hdrs)
+			res <- err
+		default:
+		}
 		cancelled.Store(true)
 		cancel()
 		select {
